@@ -189,8 +189,8 @@ func (k c01case) contBytes(rng *core.Rng) []byte {
 
 func (ch c01) Run(c *core.Ctx) {
 	probe := &hs.Prog{Stmts: []*hs.Stmt{{ID: "probe", Cols: textCols(1), Ops: []hs.Op{{K: "row", Vals: []any{"p"}}, {K: "complete", Tag: "SELECT 1"}}}}}
-	mk := func(strategy wire.AuthStrategy) *hs.Env {
-		opts := []wire.OptionFn{wire.SessionAuthStrategy(strategy), wire.SessionMiddleware(c01session)}
+	mk := func(strategy wire.AuthStrategy, more ...wire.OptionFn) *hs.Env {
+		opts := append([]wire.OptionFn{wire.SessionAuthStrategy(strategy), wire.SessionMiddleware(c01session)}, more...)
 		if c.Batch%2 == 1 {
 			// hooks of the embedding program for the end of a connection, one that reports an error and one
 			// that does not: whatever a hook does or returns, a rejected connection is closed
@@ -326,11 +326,32 @@ func (ch c01) Run(c *core.Ctx) {
 	}
 	c01slow.Store(true)
 	defer c01slow.Store(false)
+	// every other group runs on a server that also has certificates, right after a few clients that asked for
+	// TLS, got their S and then failed the handshake (hung up, or sent something else): what such a client
+	// leaves behind is nobody's credentials
+	envTLS := mk(wire.ClearTextPassword(c01validator), wire.TLSConfig(hs.ServerTLS()))
+	defer envTLS.Stop()
 	for g := 0; g < groups; g++ {
 		if !c.Begin(5000000+g) || c.NViol() >= 10 {
 			continue
 		}
 		rng := core.NewRng(c.Seed, "C01g", c.Batch, g)
+		genv := envs["cleartext"]
+		if g%2 == 1 {
+			genv = envTLS
+			for f := 1 + g%3; f > 0; f-- {
+				fc := envTLS.Dial(nil)
+				fc.Send(pg.SSLRequest())
+				fc.Quiesce()
+				if f%2 == 0 {
+					fc.Send([]byte("\x16\x03\x01\x00\x05hello, this is no handshake"))
+					fc.Quiesce()
+				}
+				fc.CloseWrite()
+				fc.WaitClosed()
+				c.Count("failed_tls_handshakes_before_an_authentication_group", 1)
+			}
+		}
 		var wg sync.WaitGroup
 		pwlen := 3 + rng.Intn(12)
 		for m := 2 + rng.Intn(10); m > 0; m-- {
@@ -352,7 +373,7 @@ func (ch c01) Run(c *core.Ctx) {
 			wg.Add(1)
 			go func() {
 				defer wg.Done()
-				ch.runCase(c, envs["cleartext"], k, kr, probe)
+				ch.runCase(c, genv, k, kr, probe)
 			}()
 		}
 		wg.Wait()
